@@ -4,7 +4,7 @@ package ecvrf
 
 import "github.com/oasisprotocol/curve25519-voi/internal/verif"
 
-//verif:ob prop=C08 name=ct_ecvrf_prove mode=bv tags=purego ct=1 use=gapi split=rnd:0..1
+//verif:ob prop=C08,C18 name=ct_ecvrf_prove mode=bv tags=purego ct=1 use=gapi split=rnd:0..1 sharedro=1
 func vh_C08_prove() {
 	verif.Secret("sk[0]")
 	verif.Secret("sk[1]")
